@@ -3,5 +3,6 @@ EXTENDS DenseApi
 NoDev == {}
 DevCtor == {"ctorStoresStart"}
 DevBounds == {"boundsFromRawCache"}
+DevTurn == {"bisectAfterTurn"}
 DevCode == CodeDev
 =============================================================================
